@@ -11,11 +11,11 @@ values) and result equal RotoSem.Eval.
 import semlib
 
 PID = "C08"
-ALL = ["ints", "bool", "float", "str", "char", "rec", "enum", "opt", "list", "loops", "calls", "recfn", "ret", "fstr", "copymut", "generic", "filtermap", "hostopt", "shadow", "gconst", "kconst", "mods", "tr", "exprstmt"]
+ALL = ["ints", "bool", "float", "str", "char", "rec", "enum", "opt", "list", "loops", "calls", "recfn", "ret", "fstr", "copymut", "generic", "filtermap", "hostopt", "shadow", "gconst", "kconst", "mods", "tr", "exprstmt", "hmeth"]
 
 
 def run(tier):
-    fam = [("effects", ALL, 3, 600, 5000, 2), ("deep", ["ints", "bool", "str", "enum", "opt", "rec", "list", "loops", "calls", "ret", "fstr", "exprstmt"], 4, 200, 2000, 2)]
+    fam = [("effects", ALL, 3, 600, 5000, 2), ("deep", ["ints", "bool", "str", "enum", "opt", "rec", "list", "loops", "calls", "ret", "fstr", "exprstmt", "hmeth"], 4, 200, 2000, 2)]
     return semlib.run_sem_check(
         PID, tier, fam,
         extra_cases=[("match", semlib.match_cases())],
@@ -23,7 +23,7 @@ def run(tier):
               "inputs); non-trivial = the program makes host calls from nested positions (every generated program does; "
               "counted when its source is longer than one statement)"),
         assumptions=["only documented evaluation orders are asserted", "program size and nesting are bounded by the generator"],
-        required_kinds=["host:emit", "host:tick", "host:in", "bin:and", "bin:or", "match", "while", "for", "ret", "call",
+        required_kinds=["host:emit", "host:tick", "host:in", "host:sel", "bin:and", "bin:or", "match", "while", "for", "ret", "call",
                         "rec", "ctor", "list", "fstr", "cset", "lcall:push", "try"])
 
 
